@@ -148,7 +148,7 @@ theorem WF_parts {env : MEnv} (h : WF env = true) :
     (∃ caught, branchOf env.assignBr "P" = some ("handler", caught, "PathAssignError") ∧
       ∀ n ∈ assignHandlerExcs, C01.caughtBy env.t caught ⟨n⟩ = true) := by
   simp only [WF, Bool.and_eq_true, beq_iff_eq] at h
-  obtain ⟨⟨⟨⟨⟨⟨h1, h2⟩, h3⟩, h4⟩, h5⟩, h6⟩, _⟩ := h
+  obtain ⟨⟨⟨⟨⟨⟨⟨_, h1⟩, h2⟩, h3⟩, h4⟩, h5⟩, h6⟩, _⟩ := h
   refine ⟨h1, h2, h3, h4, h5, ?_⟩
   split at h6
   · rename_i caught heq
@@ -784,23 +784,23 @@ theorem noScope_isScope {env : MEnv} (hns : noScope env = true) (h : Heap) (c : 
     · rfl
   · rfl
 
+theorem fresh_isScope {env : MEnv} (hfs : freshNotScope env = true) {kind : String} {o : Obj}
+    (hfo : freshObj kind = some o) {h : Heap} {a : Nat} (ha : h[a]? = some o) :
+    isScope env h (.ref a) = false := by
+  simp only [freshNotScope, List.all_cons, List.all_nil, Bool.and_true, Bool.and_eq_true,
+    Bool.not_eq_true'] at hfs
+  simp only [isScope, ha]
+  unfold freshObj at hfo
+  repeat' split at hfo
+  all_goals first
+    | contradiction
+    | (injection hfo with hfo; subst hfo; simp [Obj.cls, hfs])
+
 /-- the model's `missing` branch: factory call, then the recursive Assign on the fresh object -/
 def tailRun (env : MEnv) (sref : Val) (kind : String) (fuel : Nat) (st : St) (rem : List Step) (v : Val) :
     St × Except MErr Val :=
   match callFactory kind st with
   | (st1, .error e) => (st1, .error e)
-  | (st1, .ok fresh) => assignAux env false sref (.factory kind) fuel st1 fresh rem (.lit v)
-
-theorem reArgVal_ok {st : St} {v : Val} (h : rebuilds st.heap v = false) : reArgVal st v = (st, v) := by
-  simp [reArgVal, h]
-
-theorem valOK_rebuilds {h0 h : Heap} {v : Val} (hv : valOK h0 v = true) (hp : Pres h0 h) :
-    rebuilds h v = false := by
-  cases v with
-  | ref a =>
-    simp only [valOK, Bool.and_eq_true, decide_eq_true_eq, Bool.not_eq_true'] at hv
-    rw [rebuilds_congr (h := h0) (fun b hb => by injection hb with hb; subst hb; exact hp _ hv.1)]
-    exact hv.2
-  | _ => rfl
+  | (st1, .ok fresh) => assignAux env false sref (.factory kind) fuel st1 fresh rem (.val v)
 
 end Glom.C11
